@@ -302,6 +302,44 @@ def run(ctx):
                     for e in exc[:3]:
                         ctx.anomaly(f"server-loop-exception:{e.get('message')}")
                     ctx.case(("early-disconnect", variant, r2["data"][:2]), True, sample={"variant": variant, "next": r2["data"][:60]})
+        # ---- D2. an upstream that is slow but healthy, or stalls past the location timeout, while the
+        # server runs with its default middleware chain (rate limiter on) and the request-receive timer is
+        # short: the timer is about *receiving* the request and must not cut the answer short
+        if ctx.mine(6):
+            from nauyaca.server import protocol as P
+
+            old_rt = P.REQUEST_TIMEOUT
+            P.REQUEST_TIMEOUT = 1.0
+            try:
+                for rate_limit in (True, False):
+                    srv5, _ = world.server(cfg, timeout=4.0)
+                    srv5.start_kwargs["enable_rate_limiting"] = rate_limit
+                    with srv5:
+                        for behaviour, delay in (("slow-but-healthy", 1.8), ("stall-past-location-timeout", 6.0)):
+                            stream = b"20 text/plain; charset=utf-8\r\nslow but fine\n"
+
+                            def fn(conn, delay=delay, stream=stream):
+                                conn.read_line(timeout=3)
+                                time.sleep(delay)
+                                conn.send(stream)
+                                conn.close()
+
+                            world.upstream_script["fn"] = fn
+                            r = live.fetch_raw(srv5.port, f"gemini://127.0.0.1:{srv5.port}/x\r\n".encode(), timeout=20)
+                            world.upstream.wait_idle(8)
+                            ctx.count("monitor", "exchanges")
+                            wit = {"behaviour": behaviour, "middleware_chain": rate_limit, "request_timeout_s": 1.0, "location_timeout_s": 4.0, "upstream_delay_s": delay,
+                                   "downstream": r["data"][:100], "elapsed": r["t"]}
+                            if behaviour == "slow-but-healthy":
+                                ctx.count("monitor", "verbatim_compared")
+                                if r["data"] != stream:
+                                    ctx.violation(f"relay-altered:slow-upstream-cut-off:middleware={rate_limit}", f"healthy upstream answering after {delay}s (< location timeout) was answered downstream with {r['data'][:40]!r}", wit)
+                            else:
+                                judge_fault(ctx, f"stall-past-location-timeout:middleware={rate_limit}", r, wit)
+                            ctx.case(("slow-upstream", behaviour, rate_limit, r["data"][:2]), True, sample=wit)
+            finally:
+                P.REQUEST_TIMEOUT = old_rt
+                world.upstream_script["fn"] = None
         # ---- E. refused connection / TLS garbage / oversize: separate servers
         if ctx.mine(3):
             dead = live.free_port()
